@@ -560,7 +560,7 @@ pub fn field_text_strategy() -> impl Strategy<Value = String> {
 }
 
 pub fn parts() -> Vec<Box<dyn DynPart>> {
-    vec![Box::new(Route1), Box::new(Route2), Box::new(TextFields), Box::new(SetApi), Box::new(crate::props::c03::OneCodec("c01")), Box::new(SameText)]
+    vec![Box::new(Route1), Box::new(Route2), Box::new(TextFields), Box::new(SetApi), Box::new(crate::props::c03::OneCodec("c01")), Box::new(crate::props::c03::SameTextSeq("c01")), Box::new(SameText)]
 }
 
 pub fn run(run: &mut Run) {
@@ -602,4 +602,6 @@ pub fn run(run: &mut Run) {
     // them), a packet's frame must be the one a fresh codec produces, and read back alike
     let n = run.budget(30_000, 1_500_000);
     run.prop(&crate::props::c03::OneCodec("c01"), crate::props::c03::seq_strategy(), n);
+    let n = run.budget(30_000, 1_000_000);
+    run.prop(&crate::props::c03::SameTextSeq("c01"), crate::props::c03::same_text_strategy(), n);
 }
